@@ -164,18 +164,18 @@ theorem flat_cons_of {F : List Item} {c : UInt8} {rem : Bytes} {trail : List Ite
 
 /-! ## Complete bodies (C01): the stream holds all of `rem`, the frame ends there -/
 
-def Clean (b : Body) (rem : Bytes) : Prop :=
+def BodyClean (b : Body) (rem : Bytes) : Prop :=
   match b with
   | .chunked _ => False
   | .length r lim => r.Ok ∧ lim = rem.length ∧ ∃ trail, r.flat = bytesI rem ++ trail
   | .close r => r.Ok ∧ r.flat = bytesI rem
 
-def QClean (n : Nat) (rem : Bytes) (e : Ev) : Prop :=
+def QBodyClean (n : Nat) (rem : Bytes) (e : Ev) : Prop :=
   ∃ bs, e = .ok bs ∧ bs.length ≤ n ∧ (0 < n → (bs = [] ↔ rem = []))
 
-theorem clean_step (m : Nat) (b : Body) (rem : Bytes) (n : Nat) (h : Clean b rem) :
-    QClean n rem (Ev.ofRR (b.read m n).1) ∧
-    ∃ rem', Clean (b.read m n).2 rem' ∧ rem = (Ev.ofRR (b.read m n).1).bytes ++ rem' := by
+theorem clean_step (m : Nat) (b : Body) (rem : Bytes) (n : Nat) (h : BodyClean b rem) :
+    QBodyClean n rem (Ev.ofRR (b.read m n).1) ∧
+    ∃ rem', BodyClean (b.read m n).2 rem' ∧ rem = (Ev.ofRR (b.read m n).1).bytes ++ rem' := by
   cases b with
   | chunked c => exact h.elim
   | length r lim =>
@@ -223,7 +223,7 @@ theorem clean_step (m : Nat) (b : Body) (rem : Bytes) (n : Nat) (h : Clean b rem
         (c :: rem).drop bs.length, ⟨hok', by simpa using hs2⟩, hs1⟩
 
 /-- C01 for `Content-Length` and close-delimited bodies, at the level of `Body`. -/
-theorem clean_run (m : Nat) (ns : List Nat) (b : Body) (rem : Bytes) (h : Clean b rem) :
+theorem clean_run (m : Nat) (ns : List Nat) (b : Body) (rem : Bytes) (h : BodyClean b rem) :
     let evs := (reads m ns b).1
     (∀ e ∈ evs, e.isOk) ∧ deliveredEv evs <+: rem ∧
     (∀ i (hi : i < ns.length), 0 < ns[i] → evs[i]? = some (.ok []) →
@@ -233,7 +233,7 @@ theorem clean_run (m : Nat) (ns : List Nat) (b : Body) (rem : Bytes) (h : Clean 
     (∀ i (hi : i < ns.length), 0 < ns[i] → (deliveredEv (evs.take i)).length < rem.length →
         ∃ bs, evs[i]? = some (.ok bs) ∧ bs ≠ []) := by
   intro evs
-  obtain ⟨h1, h2⟩ := reads_inv m Clean QClean (clean_step m) ns b rem h
+  obtain ⟨h1, h2⟩ := reads_inv m BodyClean QBodyClean (clean_step m) ns b rem h
   refine ⟨?_, h1, ?_, ?_, ?_⟩
   · intro e he
     obtain ⟨i, hi, hie⟩ := mem_reads_getElem? he
@@ -254,20 +254,20 @@ theorem clean_run (m : Nat) (ns : List Nat) (b : Body) (rem : Bytes) (h : Clean 
     refine ⟨bs, he', fun hb => ?_⟩
     exact (prefix_length_lt_iff hp).1 hlt ((hq hn).1 hb)
 
-/-! ## Cut `Content-Length` bodies (C02): the stream ends after `rem`, fewer bytes than announced -/
+/-! ## BodyCut `Content-Length` bodies (C02): the stream ends after `rem`, fewer bytes than announced -/
 
-def Cut (b : Body) (rem : Bytes) : Prop :=
+def BodyCut (b : Body) (rem : Bytes) : Prop :=
   match b with
   | .length r lim => r.Ok ∧ rem.length < lim ∧ r.flat = bytesI rem
   | _ => False
 
-def QCut (n : Nat) (rem : Bytes) (e : Ev) : Prop :=
+def QBodyCut (n : Nat) (rem : Bytes) (e : Ev) : Prop :=
   e ≠ .panic ∧ (0 < n → e ≠ .ok []) ∧ (0 < n → rem = [] → e = .err .eof) ∧
   (rem ≠ [] → ∃ bs, e = .ok bs)
 
-theorem cut_step (m : Nat) (b : Body) (rem : Bytes) (n : Nat) (h : Cut b rem) :
-    QCut n rem (Ev.ofRR (b.read m n).1) ∧
-    ∃ rem', Cut (b.read m n).2 rem' ∧ rem = (Ev.ofRR (b.read m n).1).bytes ++ rem' := by
+theorem cut_step (m : Nat) (b : Body) (rem : Bytes) (n : Nat) (h : BodyCut b rem) :
+    QBodyCut n rem (Ev.ofRR (b.read m n).1) ∧
+    ∃ rem', BodyCut (b.read m n).2 rem' ∧ rem = (Ev.ofRR (b.read m n).1).bytes ++ rem' := by
   cases b with
   | chunked c => exact h.elim
   | close r => exact h.elim
@@ -282,8 +282,8 @@ theorem cut_step (m : Nat) (b : Body) (rem : Bytes) (n : Nat) (h : Cut b rem) :
       obtain ⟨rfl, rfl, hf'⟩ := hm
       refine ⟨?_, [], ⟨hok', hlim, hf'⟩, ?_⟩
       · by_cases hn : n = 0
-        · subst hn; simp [QCut, Ev.ofRR]
-        · simp [QCut, Ev.ofRR, hn]
+        · subst hn; simp [QBodyCut, Ev.ofRR]
+        · simp [QBodyCut, Ev.ofRR, hn]
       · by_cases hn : n = 0 <;> simp [hn, Ev.ofRR, Ev.bytes]
     | cons c rem =>
       have hfl' : r.flat = bytesI (c :: rem) ++ [] := by simpa using hfl
@@ -304,7 +304,7 @@ theorem cut_step (m : Nat) (b : Body) (rem : Bytes) (n : Nat) (h : Cut b rem) :
       · rw [List.length_drop]; omega
 
 /-- C02 for a `Content-Length` body closed early, at the level of `Body`. -/
-theorem cut_run (m : Nat) (ns : List Nat) (b : Body) (rem : Bytes) (h : Cut b rem) :
+theorem cut_run (m : Nat) (ns : List Nat) (b : Body) (rem : Bytes) (h : BodyCut b rem) :
     let evs := (reads m ns b).1
     (∀ i (hi : i < ns.length), 0 < ns[i] → evs[i]? ≠ some (.ok [])) ∧
     deliveredEv evs <+: rem ∧
@@ -314,7 +314,7 @@ theorem cut_run (m : Nat) (ns : List Nat) (b : Body) (rem : Bytes) (h : Cut b re
     (∀ i, i < ns.length → (deliveredEv (evs.take i)).length < rem.length →
         ∃ bs, evs[i]? = some (.ok bs)) := by
   intro evs
-  obtain ⟨h1, h2⟩ := reads_inv m Cut QCut (cut_step m) ns b rem h
+  obtain ⟨h1, h2⟩ := reads_inv m BodyCut QBodyCut (cut_step m) ns b rem h
   refine ⟨?_, h1, ?_, ?_, ?_⟩
   · intro i hi hn hev
     obtain ⟨e', he', _, _, hq, _⟩ := h2 i hi
@@ -424,7 +424,7 @@ theorem any_run (m : Nat) (ns : List Nat) (b : Body) (rem : Bytes) (h : AnyLC b 
 
 /-! ## Arrived bytes (C19): `x` has arrived, what follows is arbitrary -/
 
-def Avail (b : Body) (x : Bytes) : Prop :=
+def BodyAvail (b : Body) (x : Bytes) : Prop :=
   match b with
   | .chunked _ => False
   | .length r lim => r.Ok ∧ x.length ≤ lim ∧ ∃ rest, r.flat = bytesI x ++ rest
@@ -437,9 +437,9 @@ theorem bytesI_overshoot (bs x : Bytes) (F' rest : List Item)
   · exact ⟨rest, (bytesI_split bs x F' rest h hl).2⟩
   · exact ⟨F', by rw [List.drop_eq_nil_of_le (by omega)]; rfl⟩
 
-theorem avail_step (m : Nat) (b : Body) (x : Bytes) (n : Nat) (h : Avail b x) (hx : x ≠ []) :
+theorem avail_step (m : Nat) (b : Body) (x : Bytes) (n : Nat) (h : BodyAvail b x) (hx : x ≠ []) :
     ∃ bs, (b.read m n).1 = .ok bs ∧ (0 < n → bs ≠ []) ∧ bs.length ≤ n ∧
-      Avail (b.read m n).2 (x.drop bs.length) := by
+      BodyAvail (b.read m n).2 (x.drop bs.length) := by
   obtain ⟨c, x', rfl⟩ := List.exists_cons_of_ne_nil hx
   cases b with
   | chunked c => exact h.elim
@@ -466,7 +466,7 @@ theorem avail_step (m : Nat) (b : Body) (x : Bytes) (n : Nat) (h : Avail b x) (h
 
 /-- C19 for `Content-Length` and close-delimited bodies at the level of `Body`: while fewer than the
     arrived bytes were delivered, a read with a non-empty buffer returns a non-empty `Ok`. -/
-theorem avail_run (m : Nat) (ns : List Nat) : ∀ (b : Body) (x : Bytes), Avail b x →
+theorem avail_run (m : Nat) (ns : List Nat) : ∀ (b : Body) (x : Bytes), BodyAvail b x →
     ∀ i (hi : i < ns.length), (deliveredEv ((reads m ns b).1.take i)).length < x.length →
       (ns[i] = 0 → (reads m ns b).1[i]? = some (.ok [])) ∧
       (0 < ns[i] → ∃ bs, (reads m ns b).1[i]? = some (.ok bs) ∧ bs ≠ [] ∧ bs.length ≤ ns[i]) := by
